@@ -77,6 +77,16 @@ def r1(ctx):
         dep_b = any(_field_of_find(x, "m", pb) for x in role_walk(perm))
         ctx.check(dep_a and dep_b, "perm-depends-both", "queried permutation depends on find(a).m and find(b).m: %s" % role_str(perm),
                   "queried permutation %s does not depend on both canonicalised operands' maps" % role_str(perm), w)
+        # (3b) orientation: perm = X.m ; Y.m^-1  (slots of the class -> slots of the class), not X.m^-1 ; Y.m (names -> names)
+        pr = strip_role(perm)
+        shape_ok = False
+        if isinstance(pr, tuple) and pr[0] == "call" and pr[1] in ("compose", "compose_partial") and len(pr[3]) == 2:
+            x, y = strip_role(pr[3][0]), strip_role(pr[3][1])
+            if isinstance(y, tuple) and y[0] == "call" and y[1] == "inverse" and y[3]:
+                yy = strip_role(y[3][0])
+                shape_ok = (_field_of_find(x, "m", pa) and _field_of_find(yy, "m", pb)) or (_field_of_find(x, "m", pb) and _field_of_find(yy, "m", pa))
+        ctx.check(shape_ok, "perm-is-class-permutation", "the queried permutation is find(x).m ; find(y).m^-1 — a permutation of the class's own slots",
+                  "the permutation asked of the class group is %s; it must be find(a).m.compose(find(b).m.inverse()) (class slots -> names -> class slots). The other way round it permutes the *names* and is meaningless to the group" % role_str(perm), w)
         # (4) guards
         conds = C.conditions_at(eq, c.bb)
         id_guard = False
@@ -306,3 +316,43 @@ def r5(ctx):
 
 
 RULES.append(r5)
+
+
+@rule("ST", doc="slot-space typing: no slot map of one class's slots is used where another class's slots are required")
+def st(ctx):
+    from salib import spaces
+    from . import c02
+    crate = ctx.lib()
+    ins, rem = c02._hc_split(crate)
+    tot = dec = 0
+    nfun = 0
+    for b in crate.fns():
+        if not (b.file or "").startswith("src/"):
+            continue
+        errs, (sites, d) = spaces.check_function(crate, b, ins)
+        tot += sites
+        dec += d
+        if sites:
+            nfun += 1
+        seen = set()
+        for site, msg in errs:
+            callee = ""
+            if isinstance(site, int):
+                for sub in b.all_bodies():
+                    cs = sub.call_at.get(site)
+                    if cs is not None and cs.callee:
+                        callee = cs.callee.name
+                        break
+            key = "space-mismatch:%s:%s" % (C.fkey(b), callee)
+            if key in seen:
+                continue
+            seen.add(key)
+            ctx.bad(key, "slot-space type error in %s at the call of %s: %s. A slot map is a morphism between the parameter slots of specific classes (the code's own comments: `from.m :: slots(from.id) -> X`); composing, applying or storing it against the slots of a different class silently relates unrelated slots" % (C.short(b.id), callee, msg),
+                    where_of(b, site if isinstance(site, int) else None))
+    ctx.extra["slot_space_typing_%s" % ctx.cur_cfg] = {"functions_with_typed_sites": nfun, "unification_sites": tot, "decisive (both spaces known)": dec}
+    ctx.floor("decisive slot-space unifications", dec, 14)
+    if True:
+        ctx.ok("well-typed", "%d unification sites in %d functions, %d of them between two known class spaces: all consistent" % (tot, nfun, dec))
+
+
+RULES.append(st)
